@@ -61,6 +61,8 @@ class Ctx:
         self.instances.setdefault(rid, [])
         if floor:
             self.floors[rid] = floor
+        else:
+            self.floors.pop(rid, None)     # re-declared without floor: the rule was replaced by another one
 
     def ok(self, rid: str, site: str, what: str, **detail):
         self.instances.setdefault(rid, []).append(dict(site=site, what=what, verdict="ok", **detail))
